@@ -277,6 +277,49 @@ pub fn label_memory_safe_after_reject(after: &Option<Label>, l: &Layout, buf: &[
     }
 }
 
+/// Ghost for C04's receiver clause: `prev` = label carried by the nearest preceding start /
+/// complete packet of the frame (None after a reset or a broadcast packet).  Invariant R:
+/// the remembered label is None or equals prev.
+pub fn any_prev_for(last: &Option<Label>) -> Option<Label> {
+    match last {
+        Some(_) => *last,
+        None => any_label_memory(),
+    }
+}
+
+/// After one start / complete packet: a delivered / accepted packet reports the label it
+/// carries (its own, or prev for a re-use marker); R is re-established with the new prev.
+pub fn check_label_ghost(
+    l: &Layout,
+    buf: &[u8],
+    prev: &Option<Label>,
+    after: &Option<Label>,
+    r: &Result<(DecapStatus, usize), (DecapError, usize)>,
+) {
+    let own = resolve(l, buf, &None);
+    let carried: Option<Label> = match l.lt {
+        LT::ReUse => *prev,
+        _ => own,
+    };
+    let prev_after: Option<Label> = match l.lt {
+        LT::Six | LT::Three => own,
+        LT::Broadcast => None,
+        LT::ReUse => *prev,
+    };
+    match r {
+        Ok((DecapStatus::CompletedPkt(_, md), _)) | Ok((DecapStatus::FragmentedPkt(md), _)) => {
+            assert!(carried.is_some(), "C04.reuse_resolves_only_to_preceding_label");
+            assert!(label_eq(&md.label(), &carried.unwrap()), "C04.reuse_resolves_only_to_preceding_label");
+        }
+        _ => {}
+    }
+    let r_holds = match after {
+        None => true,
+        Some(_) => opt_label_eq(after, &prev_after),
+    };
+    assert!(r_holds, "C04.receiver_memory_is_none_or_preceding_label");
+}
+
 pub fn is_free_buf(g: &Ghost, p: *const u8) -> bool {
     let mut q = 0;
     let mut hit = false;
@@ -311,8 +354,10 @@ pub fn complete_lemma<const S: usize>(sh: &Shape) {
         Some(x) => l.lt == LT::Six && is_zero6(x),
         None => false,
     };
+    let prev = any_prev_for(&last);
     let r = d.decap(&buf[..len]);
     let after = d.verif_last_label();
+    check_label_ghost(&l, &buf, &prev, &after, &r);
     let mut j = 0;
     while j < S {
         assert!(slot_unchanged(&d.memory, &g, j), "C07.complete_packet_leaves_reassemblies_untouched");
@@ -398,8 +443,10 @@ pub fn first_lemma<const S: usize>(sh: &Shape, k: usize) {
     // never carries the whole PDU): otherwise the packet is malformed
     let tl_ok = total_len as usize > m;
     let has_buffer = g.slot[k].is_some() || g.nfree > 0;
+    let prev = any_prev_for(&last);
     let r = d.decap(&buf[..len]);
     let after = d.verif_last_label();
+    check_label_ghost(&l, &buf, &prev, &after, &r);
     let mut j = 0;
     while j < S {
         if j != k {
